@@ -6,8 +6,25 @@ import Pyxv.Model.Backends
 back exactly (theorems `md_roundtrip`, `csv_roundtrip` in Pyxv/Proofs/C12.lean).  They live in a model
 file so that the driver can evaluate them on generated workbooks.
 -/
+namespace Pyxv.Backends
+open Pyxv
+
+/-- specification: drop the trailing elements satisfying `p` (and nothing else) -/
+def stripTrailing {α} (p : α → Bool) (l : List α) : List α := (l.reverse.dropWhile p).reverse
+
+/-- every run of empty rows that is *followed by a non-empty row* has length ≤ `lim`
+(`k` = empties seen immediately before). Decidable form. -/
+def runsInt {α} (lim : Nat) : Nat → List (List α) → Bool
+  | _, [] => true
+  | k, r :: rest => if r.isEmpty then runsInt lim (k + 1) rest else decide (k ≤ lim) && runsInt lim 0 rest
+
+end Pyxv.Backends
+
 namespace Pyxv.Backends.Md
 open Pyxv
+
+/-- an abstract cell text as an optional value: `""` is the empty cell -/
+def toOpt (c : Str) : Option Str := if c = [] then none else some c
 
 def distinctB : List Str → Bool
   | [] => true
@@ -63,3 +80,42 @@ def okNames : List Str → Workbook → Bool
 def CsvOK (wb : Workbook) : Bool := okNames [] wb
 
 end Pyxv.Backends.Csv
+
+namespace Pyxv.Backends.Excel
+open Pyxv
+
+/-- no repeated header -/
+def nodupB : List Str → Bool
+  | [] => true
+  | x :: xs => !xs.contains x && nodupB xs
+
+/-- the rows of a sheet as the dict container has them -/
+def dictRows (s : Sheet) : List KRow := s.rows.map (sheetRow s.header)
+
+/-- a sheet that `x*_to_dict_normal_sheet` reads back exactly from any typed grid showing it:
+an XLSForm sheet name (others are skipped); header cells non-blank, already clean (stripped, no
+double spaces) and pairwise different; every block of blank rows followed by data has at most 60
+rows (the limit of `get_excel_rows`); no trailing blank row (those are trimmed). Blank rows inside
+the data are *kept* (unlike md/csv: F16). -/
+def sheetOK (s : Sheet) : Bool :=
+  isAscii s.name && supported.contains (lowerAscii s.name) &&
+    s.header.all (fun h => !allSpace h && cleanHeader h == h) && nodupB s.header &&
+    runsInt Gen.maxEmptyRowRun 0 (dictRows s) && stripTrailing (·.isEmpty) (dictRows s) == dictRows s
+
+/-- decidable form of `Excel.Shows`: the grid's first row is the header as text cells and every data
+cell is read by `cellText` as the sheet's text -/
+def showsB (s : Sheet) (g : Grid) : Bool :=
+  match g with
+  | [] => false
+  | first :: rowsCells =>
+    first == s.header.map Cell.text && rowsCells.map (·.map cellText) == s.rows.map (·.map Md.toOpt)
+
+def showsAllB : Workbook → List Grid → Bool
+  | [], [] => true
+  | s :: wb, g :: gs => showsB s g && showsAllB wb gs
+  | _, _ => false
+
+def ExcelOK (wb : Workbook) : Bool :=
+  wb.all sheetOK && Md.distinctB (wb.map fun s => lowerAscii s.name)
+
+end Pyxv.Backends.Excel
